@@ -127,7 +127,7 @@ class TimedList(Generic[Item]):
             raise ValueError("Column Names do not match.")
         for col_name, (col_type, default) in cls._item_class()._props.items():
             if col_name not in df:
-                df[col_name] = default
+                df[col_name] = pd.Series([default] * len(df), index=df.index)
                 df[col_name] = df[col_name].astype(col_type)
 
         tl.df = df
